@@ -80,7 +80,7 @@ func VpC01Match() {
 	np := 1 + vp.Choice("npairs", vp.Param("P", 2))
 	pairs := make([]vpPair, np)
 	for i := 0; i < np; i++ {
-		p := vpPair{where: vp.Choice("where", 4), name: namePool[vp.Choice("name", len(namePool))]}
+		p := vpPair{where: vp.Choice("where", vp.Param("WHERE", 4)), name: namePool[vp.Choice("name", vp.Param("NAMES", len(namePool)))]}
 		c := vp.Byte("value")
 		vp.Assume(c == 'x' || c == 'X' || c == 'y')
 		p.value = string([]byte{c})
